@@ -1,0 +1,106 @@
+//go:build verif
+
+package exif2
+
+import (
+	"sync"
+	"time"
+)
+
+// Verification hooks (build tag "verif" only; not compiled into the shipped package).
+// They make the pooled tag/scratch buffers and the time-zone cache controllable, so that
+// "what earlier calls left behind" becomes a deterministic input of a simulated run instead of
+// a sync.Pool scheduling accident.
+
+var (
+	verifMu      sync.Mutex
+	verifObjects []*buffer
+	verifFill    func(v VerifBufferView)
+)
+
+// VerifBufferView exposes one pooled buffer to a residue function.
+type VerifBufferView struct {
+	Scratch []byte
+	Tags    []Tag
+	Len     *uint32
+	Pos     *uint32
+}
+
+func verifView(b *buffer) VerifBufferView {
+	return VerifBufferView{Scratch: b.buf[:], Tags: b.tag[:], Len: &b.len, Pos: &b.pos}
+}
+
+func init() {
+	newFn := bufferPool.New
+	bufferPool.New = func() interface{} {
+		b := newFn().(*buffer)
+		verifMu.Lock()
+		verifObjects = append(verifObjects, b)
+		if verifFill != nil {
+			verifFill(verifView(b))
+		}
+		verifMu.Unlock()
+		return b
+	}
+}
+
+// VerifSetResidue writes the same content into every pooled buffer created so far and into
+// every buffer the pool creates from now on. nil stops filling new buffers.
+func VerifSetResidue(fill func(v VerifBufferView)) {
+	verifMu.Lock()
+	defer verifMu.Unlock()
+	verifFill = fill
+	if fill == nil {
+		return
+	}
+	for _, b := range verifObjects {
+		fill(verifView(b))
+	}
+}
+
+// VerifPristine restores process-start state: zeroed buffers and an empty time-zone cache.
+func VerifPristine() {
+	verifMu.Lock()
+	verifFill = nil
+	for _, b := range verifObjects {
+		*b = buffer{}
+	}
+	verifMu.Unlock()
+	mutexTimeZones.Lock()
+	for k := range cacheTimeZone {
+		delete(cacheTimeZone, k)
+	}
+	mutexTimeZones.Unlock()
+}
+
+// VerifForget drops the registry (call after the pools were emptied by GC).
+func VerifForget() {
+	verifMu.Lock()
+	verifObjects = nil
+	verifMu.Unlock()
+}
+
+// VerifPoolObjects returns how many buffers the pool has created.
+func VerifPoolObjects() int {
+	verifMu.Lock()
+	defer verifMu.Unlock()
+	return len(verifObjects)
+}
+
+// VerifZoneCache returns a snapshot of the time-zone cache: offset -> zone name.
+func VerifZoneCache() map[int32]string {
+	out := map[int32]string{}
+	mutexTimeZones.RLock()
+	for k, v := range cacheTimeZone {
+		out[k] = v.String()
+	}
+	mutexTimeZones.RUnlock()
+	return out
+}
+
+// VerifSeedZone pre-loads the time-zone cache (history residue).
+func VerifSeedZone(offset int32, name string) {
+	mutexTimeZones.Lock()
+	cacheTimeZone[offset] = time.FixedZone(name, int(offset))
+	mutexTimeZones.Unlock()
+}
